@@ -2,3 +2,5 @@
 import Aiorpcx.C06.Props
 import Aiorpcx.C11.Props
 import Aiorpcx.C12.Props
+import Aiorpcx.C09.Props
+import Aiorpcx.C10.Props
